@@ -18,7 +18,7 @@ const nsPerSec = "1000000000"
 var droppedPrefixes = []string{
 	"logger.", "metrics.Metrics.", "metrics.MetricsBackend.", "metrics.(*NullMetrics).", "internal/otelutil.",
 	"go.opentelemetry.io/otel/trace.", "go.opentelemetry.io/otel/attribute.", "go.opentelemetry.io/otel/codes.",
-	"fmt.Print", "fmt.Fprint", "log.", "os.Stderr", "runtime.Gosched", "runtime/debug.",
+	"fmt.Print", "fmt.Fprint", "log.", "os.Stderr", "runtime.Gosched", "runtime.GC", "runtime/metrics.Read", "runtime/debug.",
 	"context.", "github.com/sirupsen/logrus.",
 	"sync.(*WaitGroup).", "sync.(*Once).",
 	"go.opentelemetry.io/collector/pdata/", ".error.Error", "error.Error",
@@ -166,6 +166,9 @@ func (ex *Exec) modelled(st *State, ref string, fn *types.Func, recv *Val, args 
 				return none()
 			}
 		}
+	case "runtime/metrics.Value.Uint64":
+		// a reading of the Go runtime: any value
+		return one(ex.freshVal(r0(), "rtmetric"))
 	case "cmp.Less":
 		if len(args) == 2 && args[0].Sh != nil && args[0].Sh.IsLeaf() {
 			switch args[0].Sh.Leaf {
@@ -213,8 +216,16 @@ func (ex *Exec) modelled(st *State, ref string, fn *types.Func, recv *Val, args 
 		if recv != nil && recv.Sh != nil && recv.Sh.Kind == "map" && len(args) == 1 && args[0].Sh != nil && args[0].Sh.IsLeaf() {
 			return one(b("(select " + recv.kid("dom").S + " " + args[0].S + ")"))
 		}
-	case "golang.org/x/exp/maps.Keys":
-		m := args[0]
+	case "golang.org/x/exp/maps.Keys", "generics.Set.Members":
+		var m *Val
+		if ref == "generics.Set.Members" {
+			m = recv
+		} else {
+			m = args[0]
+		}
+		if m == nil {
+			break
+		}
 		if m.Sh != nil && m.Sh.Kind == "map" {
 			r := ex.freshVal(r0(), "keys")
 			ks := m.kid("dom").Sh.Idx
